@@ -268,7 +268,17 @@ def directed_cases(tier):
     specs = [{"name": "v", "sub": None}]
     steps = [{"s": "w1", "k": k, "data": {"v": {"t": "int", "v": k}}} for k in (5, 9, 10, 30)]
     queries = [{"q": "bounds", "a": 0, "b": 0}, {"q": "ffill", "a": 12, "b": 20, "method": "ffill"}, {"q": "latest", "a": 0, "b": 0}]
-    return [{"p": p, "specs": specs, "steps": steps, "queries": queries}]
+    out = [{"p": p, "specs": specs, "steps": steps, "queries": queries}]
+    # file stamps that gain a digit inside one subdirectory (9 -> 10 s, 99 -> 100 s, 999999999 -> 1000000000 s): time order
+    # is not name order there
+    for t in (10, 100, 1000000000):
+        p2 = {"n": 1, "d": 1, "C": 1, "S": 3600, "prefix": "md"}
+        ks = [t - 2, t - 1, t, t + 1]
+        steps2 = [{"s": "w1", "k": k, "data": {"v": {"t": "int", "v": k}}} for k in ks]
+        queries2 = [{"q": "bounds", "a": 0, "b": 0}, {"q": "read", "a": t - 2, "b": t + 1}, {"q": "latest", "a": 0, "b": 0},
+                    {"q": "ffill", "a": t, "b": t + 1, "method": "ffill"}, {"q": "read", "a": t - 1, "b": t}]
+        out.append({"p": p2, "specs": specs, "steps": steps2, "queries": queries2})
+    return out
 
 
 # ------------------------------------------------------------------ execution
